@@ -145,6 +145,7 @@ M = {
   ("expansion-resets-heights", "src/coloquinte.cpp", "      cellWidth_[i] = newW;\n", "      cellWidth_[i] = newW;\n      cellHeight_[i] = h;\n", V, ["W5"]),
  ],
  "C19": [
+  ("benign-orientation-names-by-table", "src/parameters.cpp", "std::string toString(CellOrientation o) {\n  switch (o) {\n    case CellOrientation::N:\n      return \"N\";\n    case CellOrientation::S:\n      return \"S\";\n    case CellOrientation::E:\n      return \"E\";\n    case CellOrientation::W:\n      return \"W\";\n    case CellOrientation::FN:\n      return \"FN\";\n    case CellOrientation::FS:\n      return \"FS\";\n    case CellOrientation::FE:\n      return \"FE\";\n    case CellOrientation::FW:\n      return \"FW\";\n    case CellOrientation::INVALID:\n      return \"INVALID\";\n    default:\n      return \"UnknownCellOrientation\";\n  }\n}", "std::string toString(CellOrientation o) {\n  static const char *const names[] = {\"N\", \"S\", \"W\", \"E\", \"FN\", \"FS\", \"FW\", \"FE\", \"INVALID\"};\n  int ind = static_cast<int>(o);\n  if (ind < 0 || ind > static_cast<int>(CellOrientation::INVALID)) {\n    return \"UnknownCellOrientation\";\n  }\n  return names[ind];\n}", H, []),
   ("penalty-ctor-unchecked", "src/parameters.cpp", "PenaltyParameters::PenaltyParameters(int effort) {\n  checkEffort(effort);\n", "PenaltyParameters::PenaltyParameters(int effort) {\n", V, ["B1"]),
   ("setCellX-length-unchecked", "src/coloquinte.cpp", "void Circuit::setCellX(const std::vector<int> &x) {\n  if ((int)x.size() != nbCells()) {\n    throw std::runtime_error(\n        \"Number of elements is not the same as the number of cells of the \"\n        \"circuit\");\n  }\n", "void Circuit::setCellX(const std::vector<int> &x) {\n", V, ["G17"]),
   ("addNet-upper-bound-only", "src/coloquinte.cpp", "    if (c < 0 || c >= nbCells()) {\n      throw std::runtime_error(\"Net pin refers to a cell that does not exist\");\n    }\n  }\n  checkNotInUse();\n  if (cells.empty()) {", "    if (c >= nbCells()) {\n      throw std::runtime_error(\"Net pin refers to a cell that does not exist\");\n    }\n  }\n  checkNotInUse();\n  if (cells.empty()) {", V, ["G18"]),
@@ -155,6 +156,8 @@ M = {
   ("benign-mirrored-length-test", "src/coloquinte.cpp", "void Circuit::setCellY(const std::vector<int> &y) {\n  if ((int)y.size() != nbCells()) {", "void Circuit::setCellY(const std::vector<int> &y) {\n  if (nbCells() != (int)y.size()) {", H, []),
  ],
  "C20": [
+  ("orientation-names-table-in-case-order", "src/parameters.cpp", "std::string toString(CellOrientation o) {\n  switch (o) {\n    case CellOrientation::N:\n      return \"N\";\n    case CellOrientation::S:\n      return \"S\";\n    case CellOrientation::E:\n      return \"E\";\n    case CellOrientation::W:\n      return \"W\";\n    case CellOrientation::FN:\n      return \"FN\";\n    case CellOrientation::FS:\n      return \"FS\";\n    case CellOrientation::FE:\n      return \"FE\";\n    case CellOrientation::FW:\n      return \"FW\";\n    case CellOrientation::INVALID:\n      return \"INVALID\";\n    default:\n      return \"UnknownCellOrientation\";\n  }\n}", "std::string toString(CellOrientation o) {\n  static const char *const names[] = {\"N\", \"S\", \"E\", \"W\", \"FN\", \"FS\", \"FE\", \"FW\", \"INVALID\"};\n  int ind = static_cast<int>(o);\n  if (ind < 0 || ind > static_cast<int>(CellOrientation::INVALID)) {\n    return \"UnknownCellOrientation\";\n  }\n  return names[ind];\n}", V, ["N4"]),
+  ("benign-orientation-names-by-table", "src/parameters.cpp", "std::string toString(CellOrientation o) {\n  switch (o) {\n    case CellOrientation::N:\n      return \"N\";\n    case CellOrientation::S:\n      return \"S\";\n    case CellOrientation::E:\n      return \"E\";\n    case CellOrientation::W:\n      return \"W\";\n    case CellOrientation::FN:\n      return \"FN\";\n    case CellOrientation::FS:\n      return \"FS\";\n    case CellOrientation::FE:\n      return \"FE\";\n    case CellOrientation::FW:\n      return \"FW\";\n    case CellOrientation::INVALID:\n      return \"INVALID\";\n    default:\n      return \"UnknownCellOrientation\";\n  }\n}", "std::string toString(CellOrientation o) {\n  static const char *const names[] = {\"N\", \"S\", \"W\", \"E\", \"FN\", \"FS\", \"FW\", \"FE\", \"INVALID\"};\n  int ind = static_cast<int>(o);\n  if (ind < 0 || ind > static_cast<int>(CellOrientation::INVALID)) {\n    return \"UnknownCellOrientation\";\n  }\n  return names[ind];\n}", H, []),
   ("FW-bound-to-FE", "pycoloquinte/module.cpp", ".value(\"FW\", CellOrientation::FW, \"Flipped + West\")", ".value(\"FW\", CellOrientation::FE, \"Flipped + West\")", V, ["N1"]),
   ("attribute-renamed", "pycoloquinte/module.cpp", ".def_readwrite(\"nb_passes\", &DetailedPlacerParameters::nbPasses)", ".def_readwrite(\"nb_pass\", &DetailedPlacerParameters::nbPasses)", V, ["N2"]),
   ("toString-swaps-E-W", "src/parameters.cpp", "    case CellOrientation::E:\n      return \"E\";", "    case CellOrientation::E:\n      return \"W\";", V, ["N4"]),
